@@ -7,5 +7,6 @@ CONSTANTS
   CtlLensOf <- TCtlLensOf
   MaxCtlOf <- TMaxCtlOf
   ReadSizesOf <- TReadSizesOf
+  ReadBufsOf <- TReadBufsOf
 INVARIANTS Intact AllDelivered PingsIntact SenderConformant Emit
 CHECK_DEADLOCK FALSE
